@@ -20,10 +20,21 @@ NAMES = ["x", "_", "__", "x1", "1x", "123", "self", "point", "kwargs", "variable
          "Ünï", "变量", "π", "x٣", "ⅷ", "ª", "whatever", "X" * 300, "a_b_c", "ñ_2", "µ", "²", "x̀"]
 
 
+def cancelling(rng) -> list:
+    """expressions in which a variable occurs but cancels when simplified: what counts is what is written"""
+    x, y = X.Variable("x"), X.Variable("y")
+    c = X.Constant
+    base = [X.Multiply(c(0), x), X.Power(x, c(0)), X.Add(c(3), X.Multiply(x, c(0), x)), X.Add(x, X.Multiply(c(0), y)),
+            X.Multiply(x, X.Power(y, c(0))), X.Add(X.Minus(y, y), x), X.Divide(X.Multiply(x, y), y), X.Minus(X.Add(x, y), y),
+            X.NthPower(X.Multiply(c(0), x), 2), X.Multiply(c(0.0), X.Sine(x)), X.Power(c(1), x), X.Logarithm(X.Exponential(x)),
+            X.Add(X.Negation(x), x), X.Multiply(X.Reciprocal(x), x), X.Add(X.Multiply(c(0), x), X.Multiply(c(0), y))]
+    return [("cancelling", e) for e in base] + [("cancelling", X.Sine(e)) for e in rng.sample(base, 4)]
+
+
 def gen_cases(rng, tier: str) -> list[dict]:
     cases = []
-    for origin, e in common.expr_stream(rng, tier, common.sizes(tier, 150, 2000), depth_q=4, depth_t=6,
-                                        names=("x", "y", "z"), share=0.2, max_size=150):
+    for origin, e in cancelling(rng) + common.expr_stream(rng, tier, common.sizes(tier, 150, 2000), depth_q=4, depth_t=6,
+                                                           names=("x", "y", "z"), share=0.2, max_size=150):
         vs = common.names_of(e)
         g = gen.Gen(rng)
         full = g.point(vs)
@@ -75,6 +86,21 @@ def check_cases(cases: list[dict], rep: Report, known: dict) -> None:
         # bare number / Derivative acceptance
         num = call(e.at, 1.5)
         der = call(lambda: sm.Derivative(e))
+        if der[0] == "ok" or der == ("err", "usage"):
+            # the early construction, by keyword and positionally, must accept exactly the same expressions
+            for mk in (lambda: sm.Derivative(e, compute_early=True), lambda: sm.Derivative(e, True)):
+                der_e = call(mk, timeout=30)
+                if der_e[0] != der[0] and der_e[1] not in ("timeout", "recursion", "overflow"):
+                    der = ("ok" if der[0] != "ok" else "err", f"early construction disagrees with late: {der_e!r} vs {der!r}")
+                    break
+            else:
+                if der[0] == "ok" and len(vs) <= 1:
+                    # and a bare number works for it whatever simplification does to the variable
+                    for t in (1.5, 0, 0.0, -2):
+                        got = call(lambda: (sm.Derivative(e, compute_early=True).at(t), sm.Derivative(e).at(t), e.at(t)), timeout=30)
+                        if got == ("err", "missing") or got == ("err", "usage"):
+                            rep.violation(f"bare number {t!r} for a one-variable expression raised {got[1]} (Derivative early / late / at)", dict(c))
+                            break
         extra.append((c, e, num, der, b.ask(f"F0 single {c['e']}"), b.ask(f"F0 vars {c['e']}")))
     b.run()
     for c, e, num, der, i_single, i_vars in extra:
